@@ -312,3 +312,11 @@ def run(run, tier, loadcfg):
         check_ratio_api(run, cx, cfg)
         check_mulhz(run, cx, cfg)
         check_interpolators(run, cx, cfg)
+        # precision: the linear blend is computed in f64 ("a ratio of exactly 1 reproduces the source unchanged" also for
+        # i32 frames, whose Float companion is f32)
+        fnl = '<dasp_interpolate::linear::Linear<F> as dasp_interpolate::Interpolator>::interpolate'
+        if cx.body(fnl) is not None:
+            res = f64_discipline(cx.facts, fnl, 'dasp_interpolate')
+            for b, bad in res:
+                run.check(bad is None, 'linear.precision', b['path'], cfg, bad or '', where=where(b))
+            run.floor('linear.precision', 'blend bodies of Linear::interpolate (%s)' % cfg, len(res), 1)
